@@ -74,4 +74,6 @@ pub mod value_type;
 mod variable_assigment;
 mod variable_reference;
 mod variables_state;
+#[cfg(bladeink_verif)]
+pub mod verif_hooks;
 mod void;
